@@ -59,7 +59,7 @@ def rand_entry(r, p):
         eps.reverse()
     o2 = []
     if r.random() < 0.15:
-        o2 = [r.choice([["cfg", [["key", "value"], ["flag", None]]], ["lb", 1, 2], ["unk", 0x77, "0011"]])]
+        o2 = [r.choice([["cfg", [["key", "value"], ["flag", None]]], ["lb", 1, 2], ["unk", 0x77, "0011"], ["sdep", 4, "10.0.0.99", 17, 30491], ["sdep", 6, "fd00::99", 17, 30490]])]
     return ["sub", svc, inst, major, eg, ttl, counter, eps, o2]
 
 
